@@ -22,7 +22,7 @@ ASSUMPTIONS = [
     "with delete=False a directory->file replacement over a non-empty directory cannot converge and must surface through onerror",
 ]
 MONITORS = "independent walk of the workspace (bytes, directories, exec bits) after apply; second compare's action lists; onerror recorder; audit-hook log of removals"
-REQUIRED_COUNTERS = ["targets_with_entries_without_hash", "link_type_lists_with_an_unavailable_first_type", "implicit_parent_targets", 
+REQUIRED_COUNTERS = ["targets_with_prefix_named_sibling_directories", "targets_with_entries_without_hash", "link_type_lists_with_an_unavailable_first_type", "implicit_parent_targets", 
     "same_index_histories_through_sqlite", "targets_handed_as_view", "root_key_file_targets", "priors_with_symlink_to_directory", "same_index_histories", "two_cache_targets", "implicit_parent_targets", "unavailable_directory_object_cases", "applies", "kind_swap_cases", "nested_dir_deletions", "lazy_targets", "explicit_targets", "delete_off_cases",
     "unavailable_source_cases", "second_compares", "exec_entries_checked", "link/hardlink", "link/symlink", "link/copy",
 ]
@@ -60,6 +60,14 @@ def run_shard(ctx):
             T = {(top, *k): v for k, v in T.items()}
             Pe = {(top, *k) for k in Pe}
             Te = {(top, *k) for k in Te}
+            if rng.random() < 0.15:
+                # sibling directories one of whose names merely continues the other's ("logs" / "logs.old"), the shorter one empty
+                nm_ = rng.choice(["logs", "data", "img", "a"])
+                sib_ = nm_ + rng.choice([".old", "2", "-raw", "_"])
+                if not any(k[:2] in ((top, nm_), (top, sib_)) for k in list(T) + list(Te)):
+                    Te.add((top, nm_))
+                    T[(top, sib_, "f")] = gen.small_content(rng)
+                    res.count("targets_with_prefix_named_sibling_directories")
             lazy = rng.random() < 0.4
             delete = rng.random() < 0.8
             link = rng.choice(["default", "copy", "copy", "hardlink", "symlink"])
